@@ -25,6 +25,12 @@ Qed.
 Definition float_ok0 (c : cfg) (data : list Z) (k : Z) : Prop :=
   level_float_ok c (c_eps c) data (last_z data) k.
 
+Definition float_ok0_cap (c : cfg) (data : list Z) (k : Z) : Prop :=
+  level_float_ok_cap c (c_eps c) data (last_z data) k.
+
+Lemma float_ok0_cap_of c data k : float_ok0 c data k -> float_ok0_cap c data k.
+Proof. apply level_float_ok_cap_of. Qed.
+
 Lemma fed_spec_hd kt x0 tl : exists rest, fed_spec kt (x0 :: tl) = (x0, 0) :: rest.
 Proof.
   unfold fed_spec. cbn [W]. unfold pt1. replace (x0 =? x0 - 1) with false by lia.
@@ -176,10 +182,10 @@ Section Search0.
   Qed.
 
   (* the layout of the built index *)
-  Lemma index0_layout k : float_ok0 c data k ->
+  Lemma index0_layout k : float_ok0_cap c data k ->
     exists css g new T,
       ix = mkIndex n (hd 0 data) (new ++ T) [0; zlen (new ++ T)] /\
-      concat g = fed_spec kt data /\ Lv c (c_eps c) (EvalOK c k) css g new /\
+      concat g = fed_spec kt data /\ Lv c (c_eps c) (EvalOKc (n + c_eps c) c k) css g new /\
       tail_shape c (last_z data) n (last new dseg) T /\
       (extra_test c n (last new dseg) = true ->
        sg_key (extra_seg c (last_z data) n) <= k -> k < sentinel c ->
@@ -191,7 +197,7 @@ Section Search0.
       as (css & fed & cnt & g & new & T & M1 & M2 & Es & Hcat & F1 & F2 & He0 & Htail).
     cbn [app] in Es, Htail.
     destruct (Hfloat css fed cnt new M1 M2) as [Fev Fext].
-    pose proof (Lv_of_Forall2 c (c_eps c) (EvalOK c k) css g new F1 F2 Fev) as HL.
+    pose proof (Lv_of_Forall2 c (c_eps c) (EvalOKc (n + c_eps c) c k) css g new F1 F2 Fev) as HL.
     assert (Hnn : new <> []).
     { intros ->. inversion F2; subst. inversion F1; subst. cbn [concat] in Hcat.
       destruct data as [|x0 tl]; [contradiction|]. destruct (fed_spec_hd kt x0 tl) as (r & Er).
@@ -204,7 +210,7 @@ Section Search0.
       rewrite app_assoc, last_last. reflexivity.
   Qed.
 
-  Theorem search0_pos q : q < sentinel c -> float_ok0 c data (Z.max (hd 0 data) q) ->
+  Theorem search0_pos q : q < sentinel c -> float_ok0_cap c data (Z.max (hd 0 data) q) ->
     exists pos,
       search c ix q = Ok (mkApprox pos (PGM_SUB_EPS pos (c_eps c)) (PGM_ADD_EPS pos (c_eps c) n)) /\
       lb data q - c_eps c - 2 <= pos <= lb data q + c_eps c /\
@@ -214,7 +220,7 @@ Section Search0.
     destruct (index0_layout _ Hfloat) as (css & g & new & T & Eix & Hcat & HL & HT & Fext & Hlk & Hnn).
     pose proof nowrap_data as Hw. pose proof wrap_last as Hwl.
     assert (Hsent : last_z data + 1 <= sentinel c) by lia.
-    destruct (level_keys_facts c (c_eps c) (EvalOK c (Z.max (hd 0 data) q)) data (last_z data) css g new T Hne Hs Hw Hcat HL HT Hwl Hsent)
+    destruct (level_keys_facts c (c_eps c) (EvalOKc (n + c_eps c) c (Z.max (hd 0 data) q)) data (last_z data) css g new T Hne Hs Hw Hcat HL HT Hwl Hsent)
       as (Hsorted & _ & Hhd).
     { intros p Hp. apply (fed_spec_x_le kt data p Hne Hs Hw Hp). }
     set (L := new ++ T) in *. set (k := Z.max (hd 0 data) q).
@@ -246,7 +252,7 @@ Section Search0.
       rewrite Z.max_r by (apply hd_le_In; assumption). exact Hin.
   Qed.
 
-  Theorem C02_search0 q : q < sentinel c -> float_ok0 c data (Z.max (hd 0 data) q) ->
+  Theorem C02_search0_cap q : q < sentinel c -> float_ok0_cap c data (Z.max (hd 0 data) q) ->
     exists a, search c ix q = Ok a /\
       0 <= a_lo a /\ a_lo a <= lb data q /\ lb data q <= a_hi a /\ a_hi a <= zlen data /\
       a_hi a - a_lo a <= 2 * c_eps c + 2 /\ a_lo a <= a_pos a.
@@ -258,7 +264,7 @@ Section Search0.
     cbn zeta in Hwin. fold n. lia.
   Qed.
 
-  Theorem C01_search0 q : q < sentinel c -> float_ok0 c data (Z.max (hd 0 data) q) -> In q data ->
+  Theorem C01_search0_cap q : q < sentinel c -> float_ok0_cap c data (Z.max (hd 0 data) q) -> In q data ->
     exists a, search c ix q = Ok a /\
       0 <= a_lo a /\ a_lo a <= lb data q /\ lb data q < a_hi a /\ a_hi a <= zlen data /\
       a_hi a - a_lo a <= 2 * c_eps c + 2 /\ a_lo a <= a_pos a.
@@ -272,19 +278,40 @@ Section Search0.
     cbn zeta in Hwin. fold n. lia.
   Qed.
 
-  Corollary C02_pred_search0 q : q < sentinel c -> float_ok0 c data (Z.max (hd 0 data) q) ->
+  Corollary C02_pred_search0_cap q : q < sentinel c -> float_ok0_cap c data (Z.max (hd 0 data) q) ->
     exists a, search c ix q = Ok a /\ C02_pred_b data q a = true.
   Proof.
-    intros Hq Hfl. destruct (C02_search0 q Hq Hfl) as (a & Es & H).
+    intros Hq Hfl. destruct (C02_search0_cap q Hq Hfl) as (a & Es & H).
     exists a. split; [exact Es|]. apply C02_pred_b_of_bounds; [exact Hs | lia..].
   Qed.
 
-  Corollary C01_pred_search0 q : q < sentinel c -> float_ok0 c data (Z.max (hd 0 data) q) -> In q data ->
+  Corollary C01_pred_search0_cap q : q < sentinel c -> float_ok0_cap c data (Z.max (hd 0 data) q) -> In q data ->
     exists a, search c ix q = Ok a /\ C01_pred_b (c_eps c) data q a = true.
   Proof.
-    intros Hq Hfl Hin. destruct (C01_search0 q Hq Hfl Hin) as (a & Es & H).
+    intros Hq Hfl Hin. destruct (C01_search0_cap q Hq Hfl Hin) as (a & Es & H).
     exists a. split; [exact Es|]. unfold C01_pred_b. lia.
   Qed.
+
+  (* the same under the stronger hypothesis float_ok0 (eval_ok without the cap disjunct) *)
+  Theorem C02_search0 q : q < sentinel c -> float_ok0 c data (Z.max (hd 0 data) q) ->
+    exists a, search c ix q = Ok a /\
+      0 <= a_lo a /\ a_lo a <= lb data q /\ lb data q <= a_hi a /\ a_hi a <= zlen data /\
+      a_hi a - a_lo a <= 2 * c_eps c + 2 /\ a_lo a <= a_pos a.
+  Proof. intros Hq Hfl. exact (C02_search0_cap q Hq (float_ok0_cap_of _ _ _ Hfl)). Qed.
+
+  Theorem C01_search0 q : q < sentinel c -> float_ok0 c data (Z.max (hd 0 data) q) -> In q data ->
+    exists a, search c ix q = Ok a /\
+      0 <= a_lo a /\ a_lo a <= lb data q /\ lb data q < a_hi a /\ a_hi a <= zlen data /\
+      a_hi a - a_lo a <= 2 * c_eps c + 2 /\ a_lo a <= a_pos a.
+  Proof. intros Hq Hfl. exact (C01_search0_cap q Hq (float_ok0_cap_of _ _ _ Hfl)). Qed.
+
+  Corollary C02_pred_search0 q : q < sentinel c -> float_ok0 c data (Z.max (hd 0 data) q) ->
+    exists a, search c ix q = Ok a /\ C02_pred_b data q a = true.
+  Proof. intros Hq Hfl. exact (C02_pred_search0_cap q Hq (float_ok0_cap_of _ _ _ Hfl)). Qed.
+
+  Corollary C01_pred_search0 q : q < sentinel c -> float_ok0 c data (Z.max (hd 0 data) q) -> In q data ->
+    exists a, search c ix q = Ok a /\ C01_pred_b (c_eps c) data q a = true.
+  Proof. intros Hq Hfl. exact (C01_pred_search0_cap q Hq (float_ok0_cap_of _ _ _ Hfl)). Qed.
 End Search0.
 
 Print Assumptions C02_search0.
